@@ -21,6 +21,7 @@ package main
 import (
 	"bufio"
 	"bytes"
+	"compress/gzip"
 	"context"
 	"encoding/json"
 	"fmt"
@@ -32,6 +33,7 @@ import (
 	"strconv"
 	"strings"
 
+	"github.com/klauspost/compress/zstd"
 	"github.com/specterops/dawgs/retriever"
 )
 
@@ -47,7 +49,7 @@ func init() {
 func (s c19Suite) Gen(rng *Rng, tier string, w *bufio.Writer, stats *Stats) {
 	nDB := 10
 	if tier == "thorough" {
-		nDB = 60
+		nDB = 40
 	}
 	caseNo := 0
 	header := func(desc string, graphs []genGraph, codec string, batch, shard int) {
@@ -199,6 +201,7 @@ type c19Runner struct {
 	dir          map[string][]byte // the dump directory between ops
 	dirCodec     retriever.CompressionCodec // codec of the fresh dump that created dir
 	srcVersion   int                        // bumped by srcadd
+	corrupted    map[string]bool            // fragments damaged by the `corrupt` op (described as stray)
 	refKey       string                     // cache key of ref
 	ref          map[string][]byte          // uninterrupted dump of the current source with the current options
 }
@@ -264,6 +267,9 @@ func (r *c19Runner) Step(_ []string, raw string) string {
 		return "ok"
 	case !r.hasOpts || len(r.src.targets) == 0:
 		return "bad-op"
+	case !r.wellFormed() && (t[0] == "plan" || t[0] == "crash" || t[0] == "readfault" || t[0] == "resume" || t[0] == "resumefault" || t[0] == "final"):
+		// a relationship whose endpoint is not a node of its graph (only shrinking produces this): outside the model
+		return "bad-db"
 	case len(t) == 1 && t[0] == "plan":
 		return withTempDir(func(dir string) string {
 			points, _, err := r.runDump(dir+"/out", false, 0)
@@ -334,7 +340,13 @@ func (r *c19Runner) Step(_ []string, raw string) string {
 		if t[0] == "rmfrag" {
 			delete(r.dir, frags[i])
 		} else {
-			r.dir[frags[i]] = []byte("corrupt\n")
+			// a subtle corruption: the fragment still decodes to the same records (one space added inside the
+			// first record) but its bytes, size and SHA-256 differ from what the checkpoint recorded
+			r.dir[frags[i]] = reencodeWithSpace(r.dir[frags[i]], r.dirCodec)
+			if r.corrupted == nil {
+				r.corrupted = map[string]bool{}
+			}
+			r.corrupted[frags[i]] = true
 		}
 		return "ok " + frags[i]
 	case len(t) == 3 && t[0] == "srcadd":
@@ -351,11 +363,23 @@ func (r *c19Runner) Step(_ []string, raw string) string {
 	return "bad-op"
 }
 
+func (r *c19Runner) wellFormed() bool {
+	for _, name := range r.src.db.GraphNames() {
+		g := r.src.db.Graph(name)
+		for _, e := range g.Edges {
+			if g.node(e.Start) == nil || g.node(e.End) == nil {
+				return false
+			}
+		}
+	}
+	return true
+}
+
 func (r *c19Runner) dumpFresh(crashAt int) string {
 	return withTempDir(func(dir string) string {
 		out := dir + "/out"
 		_, crashed, err := r.runDump(out, false, crashAt)
-		r.dir, r.dirCodec = readTree(out), r.codec
+		r.dir, r.dirCodec, r.corrupted = readTree(out), r.codec, nil
 		switch {
 		case crashed != nil:
 			r.stats.Inc("crashed." + crashed.name)
@@ -548,6 +572,8 @@ func (r *c19Runner) describe(p string, b []byte) (string, []ckFile) {
 			recorded = append(recorded, g.Files...)
 		}
 		return "manifest:" + doneSummary(m.Graphs), recorded
+	case r.corrupted[p]:
+		return "stray", nil
 	case strings.HasPrefix(p, "graphs/") && strings.Contains(path.Base(p), ".jsonl"):
 		phase := retriever.PhaseNodes
 		if strings.HasPrefix(path.Base(p), "edges-") {
@@ -600,3 +626,29 @@ func (r *c19Runner) summary() string {
 }
 
 var _ = filepath.Join
+
+// reencodeWithSpace rewrites a fragment so that it decodes to the same records but has different bytes.
+func reencodeWithSpace(b []byte, codec retriever.CompressionCodec) []byte {
+	plain, err := decompress(b, codec)
+	if err != nil || len(plain) == 0 {
+		return []byte("corrupt\n")
+	}
+	plain = bytes.Replace(plain, []byte(`":`), []byte(`": `), 1)
+	var out bytes.Buffer
+	switch codec {
+	case retriever.CompressionGzip:
+		w := gzip.NewWriter(&out)
+		_, _ = w.Write(plain)
+		_ = w.Close()
+	case retriever.CompressionZstd:
+		w, err := zstd.NewWriter(&out)
+		if err != nil {
+			return []byte("corrupt\n")
+		}
+		_, _ = w.Write(plain)
+		_ = w.Close()
+	default:
+		out.Write(plain)
+	}
+	return out.Bytes()
+}
